@@ -61,6 +61,33 @@ func (k ReadKind) String() string { return readKindNames[k] }
 type ReadOutcome struct {
 	Kind  ReadKind `json:"kind"`
 	Chunk int      `json:"chunk,omitempty"` // for ReadChunkErr: index of the Get call (per height fetch) that fails
+	// Flavor selects which error a failing listing / chunk fetch returns: 0 generic, 1 wraps
+	// context.DeadlineExceeded, 2 wraps the DA interface's ErrContextDeadline, 3 wraps ErrTxTimedOut,
+	// 4 the call hangs until the caller's deadline and returns its context error
+	Flavor int `json:"flavor,omitempty"`
+}
+
+// InFlight reports how many read calls are currently parked inside the DA layer (hanging until their deadline).
+func (d *SimDA) InFlight() int {
+	d.mu.Lock()
+	defer d.mu.Unlock()
+	return d.inflight
+}
+
+// readErr builds the error of a failing read; it may block until ctx ends (flavor 4; d.mu must not be held).
+func readErr(ctx context.Context, flavor int, what string) error {
+	switch flavor % 5 {
+	case 1:
+		return fmt.Errorf("sim: rpc error: %s: %w", what, context.DeadlineExceeded)
+	case 2:
+		return fmt.Errorf("sim: rpc error: %s: %w", what, coreda.ErrContextDeadline)
+	case 3:
+		return fmt.Errorf("sim: rpc error: %s: %w", what, coreda.ErrTxTimedOut)
+	case 4:
+		<-ctx.Done()
+		return ctx.Err()
+	}
+	return errors.New("sim: rpc error: " + what)
 }
 
 // BlobRec is one blob stored on the DA layer.
@@ -99,6 +126,8 @@ type SimDA struct {
 	SubmitScript []SubmitOutcome
 	ReadScript   map[uint64][]ReadOutcome
 	failChunk    map[uint64]int
+	failFlavor   map[uint64]int
+	inflight     int
 	chunkIdx     map[uint64]int
 	// AutoAdvance: with no script entry, every accepted submit closes the height.
 	AutoAdvance bool
@@ -156,6 +185,7 @@ func NewSimDA() *SimDA {
 		times:      map[uint64]time.Time{},
 		ReadScript: map[uint64][]ReadOutcome{},
 		failChunk:  map[uint64]int{},
+		failFlavor: map[uint64]int{},
 		chunkIdx:   map[uint64]int{},
 		Stats:      map[string]int{},
 	}
@@ -430,11 +460,21 @@ func (d *SimDA) getIDs(ctx context.Context, by string, epoch int, height uint64)
 		}
 		fallthrough
 	case ReadListErr:
-		call.Outcome = "list-err"
+		call.Outcome = fmt.Sprintf("list-err(flavor %d)", out.Flavor%5)
+		d.Stats[fmt.Sprintf("read:err-flavor-%d", out.Flavor%5)]++
 		d.logCall(call)
-		return nil, errors.New("sim: rpc error: failed to list blobs")
+		if out.Flavor%5 == 4 {
+			d.inflight++
+			d.mu.Unlock()
+			err := readErr(ctx, out.Flavor, "failed to list blobs")
+			d.mu.Lock()
+			d.inflight--
+			return nil, err
+		}
+		return nil, readErr(ctx, out.Flavor, "failed to list blobs")
 	case ReadChunkErr:
 		d.failChunk[height] = out.Chunk
+		d.failFlavor[height] = out.Flavor
 	}
 	recs := d.heights[height]
 	if len(recs) == 0 {
@@ -477,10 +517,20 @@ func (d *SimDA) get(ctx context.Context, by string, epoch int, ids [][]byte) ([]
 			d.chunkIdx[h] = idx + 1
 			if fc, ok := d.failChunk[h]; ok && fc == idx {
 				delete(d.failChunk, h)
-				call.Outcome = fmt.Sprintf("chunk-err(%d)", idx)
+				fl := d.failFlavor[h]
+				call.Outcome = fmt.Sprintf("chunk-err(%d, flavor %d)", idx, fl%5)
 				d.Stats["read:chunk-err-fired"]++
+				d.Stats[fmt.Sprintf("read:err-flavor-%d", fl%5)]++
 				d.logCall(call)
-				return nil, errors.New("sim: rpc error: failed to fetch blobs")
+				if fl%5 == 4 {
+					d.inflight++
+					d.mu.Unlock()
+					err := readErr(ctx, fl, "failed to fetch blobs")
+					d.mu.Lock()
+					d.inflight--
+					return nil, err
+				}
+				return nil, readErr(ctx, fl, "failed to fetch blobs")
 			}
 			if idx > 0 {
 				d.Stats["read:chunked-get"]++
